@@ -78,7 +78,14 @@ RaIds == {i \in Ids : obj[i].k = "ra"}
 
 KW == {<<>>} \cup {<<<<f, x>>>> : f \in 1..2, x \in {0, 1}}
         \cup {<<<<1, x>>, <<2, y>>>> : x \in {0, 1}, y \in {0, 1}}
-NssOf(lo) == UNION {[1..n -> NsIds] : n \in lo..MaxNss}
+\* namespace operands: heap namespaces, and namespaces EXTRACTED from a live set (set[cls] /
+\* iteration).  A call takes at most one extracted operand (bounds the branching); the same
+\* operand may be given twice.
+Refs == UNION {{Ref(i, k) : k \in AMRO(T, obj[i].c)} : i \in RaIds}
+NsOps == NsIds \cup Refs
+NssOf(lo) ==
+  {s \in UNION {[1..n -> NsOps] : n \in lo..MaxNss} :
+     Cardinality({j \in DOMAIN s : s[j] < 0}) <= 1}
 
 MkOp(name, a, b, cls, nss, kw) ==
   [op |-> name, a |-> a, b |-> b, cls |-> cls, nss |-> nss, kw |-> kw]
@@ -154,11 +161,11 @@ UpdateNsRejected == \E a \in RaIds, nss \in NssOf(1) : Do(MkOp("UpdateNs", a, 0,
 Convert == \E a \in RaIds, c \in 0..N : Do(MkOp("Convert", a, 0, c, <<>>, <<>>), TRUE)
 ConvertRejected == \E a \in RaIds, c \in 0..N : Do(MkOp("Convert", a, 0, c, <<>>, <<>>), FALSE)
 
-Or == \E a \in NsIds, b \in Ids : Do(MkOp("Or", a, b, 0, <<>>, <<>>), TRUE)
-OrRejected == \E a \in NsIds, b \in Ids : Do(MkOp("Or", a, b, 0, <<>>, <<>>), FALSE)
+Or == \E a \in NsOps, b \in Ids : Do(MkOp("Or", a, b, 0, <<>>, <<>>), TRUE)
+OrRejected == \E a \in NsOps, b \in Ids : Do(MkOp("Or", a, b, 0, <<>>, <<>>), FALSE)
 
-Ror == \E a \in NsIds, b \in Ids : Do(MkOp("Ror", a, b, 0, <<>>, <<>>), TRUE)
-RorRejected == \E a \in NsIds, b \in Ids : Do(MkOp("Ror", a, b, 0, <<>>, <<>>), FALSE)
+Ror == \E a \in NsOps, b \in Ids : Do(MkOp("Ror", a, b, 0, <<>>, <<>>), TRUE)
+RorRejected == \E a \in NsOps, b \in Ids : Do(MkOp("Ror", a, b, 0, <<>>, <<>>), FALSE)
 
 Pos == \E a \in NsIds : Do(MkOp("Pos", a, 0, 0, <<>>, <<>>), TRUE)
 
@@ -203,23 +210,23 @@ FoldAgrees ==
 ResultClass ==
   out.id # 0 =>
     CASE out.op.op \in {"New", "Convert"} -> obj[out.id].c = out.op.cls
-      [] out.op.op \in {"Update", "UpdateNs", "Pos", "NsUpdate"} -> obj[out.id].c = obj[out.op.a].c
+      [] out.op.op \in {"Update", "UpdateNs", "Pos", "NsUpdate"} -> obj[out.id].c = At(obj, out.op.a).c
       [] out.op.op \in {"Or", "Ror"} ->
-           /\ IsSub(T, obj[out.id].c, obj[out.op.a].c) /\ IsSub(T, obj[out.id].c, obj[out.op.b].c)
-           /\ obj[out.id].c \in {obj[out.op.a].c, obj[out.op.b].c}
+           /\ IsSub(T, obj[out.id].c, At(obj, out.op.a).c) /\ IsSub(T, obj[out.id].c, obj[out.op.b].c)
+           /\ obj[out.id].c \in {At(obj, out.op.a).c, obj[out.op.b].c}
       [] OTHER -> TRUE
 
 \* a namespace combined into a set is contained in it, unless a later one replaced it
 OperandsContained ==
   out.id # 0 =>
-    CASE out.op.op \in {"Pos", "ToRenderArgs"} -> Contains(obj[out.id], obj[out.op.a])
+    CASE out.op.op \in {"Pos", "ToRenderArgs"} -> Contains(obj[out.id], At(obj, out.op.a))
       [] out.op.op = "Or" ->
            /\ (obj[out.op.b].k = "ns" => Contains(obj[out.id], obj[out.op.b]))
-           /\ (obj[out.op.b].k = "ra" \/ obj[out.op.b].c # obj[out.op.a].c
-                 => Contains(obj[out.id], obj[out.op.a]))
-      [] out.op.op = "Ror" -> Contains(obj[out.id], obj[out.op.a])
+           /\ (obj[out.op.b].k = "ra" \/ obj[out.op.b].c # At(obj, out.op.a).c
+                 => Contains(obj[out.id], At(obj, out.op.a)))
+      [] out.op.op = "Ror" -> Contains(obj[out.id], At(obj, out.op.a))
       [] out.op.op \in {"New", "UpdateNs"} ->
-           out.op.nss # <<>> => Contains(obj[out.id], obj[out.op.nss[Len(out.op.nss)]])
+           out.op.nss # <<>> => Contains(obj[out.id], At(obj, out.op.nss[Len(out.op.nss)]))
       [] OTHER -> TRUE
 
 \* rejection is exactly non-acceptance, with a documented exception class
@@ -240,7 +247,7 @@ EqIsEquivalence ==
 \* update with no fields / convert to the same class / re-wrapping leave the VALUE unchanged
 NeutralOps ==
   out.id # 0 =>
-    CASE out.op.op \in {"Update", "NsUpdate"} /\ out.op.kw = <<>> -> Eq(obj[out.id], obj[out.op.a])
+    CASE out.op.op \in {"Update", "NsUpdate"} /\ out.op.kw = <<>> -> Eq(obj[out.id], At(obj, out.op.a))
       [] out.op.op = "Convert" /\ out.op.cls = obj[out.op.a].c -> out.id = out.op.a
       [] out.op.op = "New" /\ out.op.nss = <<>> /\ out.op.a # 0 /\ obj[out.op.a].c = out.op.cls ->
            Eq(obj[out.id], obj[out.op.a])
